@@ -323,6 +323,22 @@ pub fn run(args: &Args) -> Report {
             }
         }
     }
+    // sizes around the format's 16-bit boundaries (content length is a 32-bit field, the tag section a 16-bit one)
+    {
+        let (e1, e2) = crate::c01::base_events();
+        for (clen, fill) in [(65_535usize, "a"), (65_536, "a"), (65_537, "b"), (70_000, "\""), (131_072, "c")] {
+            let mut e = e2.clone();
+            e.content = fill.repeat(clen);
+            check_event(&mut rep, &mut rng, &e, false);
+            rep.count("large_content_events");
+        }
+        for tlen in [30_000usize, 65_000] {
+            let mut e = e1.clone();
+            e.tags = vec![vec!["t".into(), "v".repeat(tlen)]];
+            check_event(&mut rep, &mut rng, &e, false);
+            rep.count("large_tag_events");
+        }
+    }
     for k in 0..n {
         let mut e = gen_event(&mut rng, k);
         if e.tags.len() > 8 {
